@@ -229,7 +229,7 @@ def _splat_literal_tuples(tree: ast.AST) -> bool:
                 k = 0
                 while k < len(blk):
                     st = blk[k]
-                    if isinstance(st, ast.Assign) and len(st.targets) == 1 and isinstance(st.targets[0], ast.Name) and isinstance(st.value, ast.Tuple) \
+                    if isinstance(st, ast.Assign) and len(st.targets) == 1 and isinstance(st.targets[0], ast.Name) and isinstance(st.value, (ast.Tuple, ast.List)) \
                             and not all(isinstance(e, (ast.Name, ast.Constant)) for e in st.value.elts) and nstore.get(st.targets[0].id) == 1 and nload.get(st.targets[0].id) == 1 \
                             and not any(isinstance(e, ast.Starred) for e in st.value.elts):
                         t = st.targets[0].id
@@ -290,6 +290,7 @@ def _unroll_literal_loops(tree: ast.AST) -> None:
 
     # locals bound exactly once to a literal tuple / list and only read as the iterable of one loop
     tables: Dict[int, Dict[str, ast.AST]] = {}
+    local_tables: Dict[int, Dict[str, ast.AST]] = {}
     for fn in ast.walk(tree):
         if not isinstance(fn, (ast.FunctionDef, ast.AsyncFunctionDef)):
             continue
@@ -308,6 +309,9 @@ def _unroll_literal_loops(tree: ast.AST) -> None:
                 for lp in ast.walk(fn):
                     if isinstance(lp, ast.For) and isinstance(lp.iter, ast.Name) and lp.iter.id == tg_.id:
                         tables[id(lp)] = x.value
+                    if isinstance(lp, ast.ListComp) and len(lp.generators) == 1 and isinstance(lp.generators[0].iter, ast.Name) and lp.generators[0].iter.id == tg_.id \
+                            and all(isinstance(e_, (ast.Name, ast.Constant, ast.Attribute)) for e_ in x.value.elts):
+                        local_tables.setdefault(id(lp), {})[tg_.id] = x.value
 
     # module-level tuples / lists of literals bound once (dispatch tables)
     mod_tables: Dict[str, ast.AST] = {}
@@ -323,6 +327,25 @@ def _unroll_literal_loops(tree: ast.AST) -> None:
                 mod_tables[t_.id] = v_
 
     class T(ast.NodeTransformer):
+        def visit_ListComp(self, n):
+            self.generic_visit(n)
+            # `[f(v) for v in (a, b, c)]` is `[f(a), f(b), f(c)]`
+            if len(n.generators) == 1 and not n.generators[0].ifs and not n.generators[0].is_async:
+                g = n.generators[0]
+                it = g.iter
+                if isinstance(it, ast.Name) and it.id in local_tables.get(id(n), {}):
+                    it = local_tables[id(n)][it.id]
+                if isinstance(it, (ast.Tuple, ast.List)) and 1 <= len(it.elts) <= 8 and not any(isinstance(e, ast.Starred) for e in it.elts) and isinstance(g.target, ast.Name) \
+                        and not any(isinstance(x, (ast.Lambda, ast.ListComp, ast.GeneratorExp, ast.NamedExpr)) for x in ast.walk(n.elt)):
+                    elts = []
+                    for e in it.elts:
+                        class S2(ast.NodeTransformer):
+                            def visit_Name(self, x):
+                                return _copy.deepcopy(e) if x.id == g.target.id and isinstance(x.ctx, ast.Load) else x
+                        elts.append(S2().visit(_copy.deepcopy(n.elt)))
+                    return ast.copy_location(ast.List(elts=elts, ctx=ast.Load()), n)
+            return n
+
         def visit_For(self, n):
             self.generic_visit(n)
             it = tables.get(id(n), n.iter)
@@ -481,6 +504,33 @@ def _unflag_loops(tree: ast.AST) -> None:
                 if not process(fn, fn.body):
                     break
     ast.fix_missing_locations(tree)
+
+
+class _FoldLiteralTests(ast.NodeTransformer):
+    """`a if True else b` is a; `if False: A else: B` is B (literal tests left behind by an expanded helper called with a literal flag)"""
+
+    @staticmethod
+    def _lit(t):
+        if isinstance(t, ast.UnaryOp) and isinstance(t.op, ast.Not) and isinstance(t.operand, ast.Constant) and isinstance(t.operand.value, bool):
+            return not t.operand.value
+        if isinstance(t, ast.Constant) and isinstance(t.value, bool):
+            return t.value
+        return None
+
+    def visit_IfExp(self, n):
+        self.generic_visit(n)
+        v = self._lit(n.test)
+        if v is None:
+            return n
+        return n.body if v else n.orelse
+
+    def visit_If(self, n):
+        self.generic_visit(n)
+        v = self._lit(n.test)
+        if v is None:
+            return n
+        blk = n.body if v else n.orelse
+        return blk if blk else ast.copy_location(ast.Pass(), n)
 
 
 def _count_loops(tree: ast.AST) -> None:
